@@ -15,7 +15,8 @@ package main
 // first-class VALUES (a writing closure f := func(p) { x += 1; return x } that is
 // copied with copy(f), stored into and called out of a container, or passed
 // to a function that calls it; original and second route both called, in both
-// orders), bounded recursion
+// orders), a recursive function whose tail self-call follows the storing of a
+// closure over its parameter (called after the recursion), bounded recursion
 // through the defining variable, a reference to a name that is out of scope
 // (compile error in every placement) and - inside loops - a closure over a loop
 // variable stored into arr and possibly called after the loop (the documented
@@ -56,6 +57,9 @@ type fam struct {
 	// second route to the writing closure, reached through the callable name "h":
 	// "copy" h := copy(f) | "store" m.n = f, called as m.n(1) | "apply" h := func(q) { return q(1) }, called as h(f)
 	hKind string
+	// a recursive f that stores a closure over its parameter into arr[p] on every activation was
+	// generated: arr[1] may hold such a closure (called after the recursion has finished)
+	pStore bool
 }
 
 // call builds a call of a visible function with a plain argument; calling the
@@ -190,6 +194,9 @@ func (g *fam) rhs() gen.Expr {
 	if g.bFunc {
 		kinds = append(kinds, "bcall")
 	}
+	if g.pStore {
+		kinds = append(kinds, "pcall")
+	}
 	switch g.pick(kinds) {
 	case "atom":
 		return g.atom()
@@ -212,6 +219,8 @@ func (g *fam) rhs() gen.Expr {
 		return &gen.Index{X: gen.I("arr"), I: gen.I(g.pick(g.rd))}
 	case "call":
 		return g.call(false)
+	case "pcall":
+		return gen.C(&gen.Index{X: gen.I("arr"), I: gen.N("1")})
 	default:
 		return gen.C(arr0())
 	}
@@ -483,7 +492,7 @@ func (g *fam) body(loopVars []string) []gen.Stmt {
 			}
 			// (outermost functions without body only) a closure over the parameter, which outlives the call
 			if g.fdepth == 1 && len(fb) == 0 && g.depth == 1 {
-				rk = append(rk, "bump")
+				rk = append(rk, "bump", "recstore")
 			}
 			if g.fdepth == 1 && g.lean < 2 && len(fb) == 0 {
 				rk = append(rk, "getter")
@@ -497,8 +506,15 @@ func (g *fam) body(loopVars []string) []gen.Stmt {
 					rk = []string{"call"} // the nested function has not been called yet
 				}
 			}
-			getter, bump := false, false
+			getter, bump, mustCall := false, false, false
 			switch g.pick(rk) {
+			case "recstore":
+				// self call in tail position whose parameter is captured by a closure that outlives the activation
+				g.pStore = true
+				fb = []gen.Stmt{&gen.If{Cond: gen.B(">", gen.I(param), gen.N("0")), Then: []gen.Stmt{
+					gen.Set(&gen.Index{X: gen.I("arr"), I: gen.I(param)}, &gen.FuncLit{Body: []gen.Stmt{&gen.Return{X: gen.I(param)}}}),
+					&gen.ExprStmt{X: gen.C(gen.I(fname), gen.B("-", gen.I(param), gen.N("1")))}}}}
+				mustCall = true
 			case "bump":
 				// the writing closure: x is a or (if visible) the body-declared c
 				bump = true
@@ -531,7 +547,7 @@ func (g *fam) body(loopVars []string) []gen.Stmt {
 				g.fns = without(g.fns, hName)
 			}
 			g.pending, g.pendingDepth = outerPending, outerPendingDepth
-			if cost > 0 || g.lean > 3 || getter || bump {
+			if cost > 0 || g.lean > 3 || getter || bump || mustCall {
 				g.pending, g.pendingDepth = fname, g.depth
 			}
 		}
